@@ -16,7 +16,7 @@ CHECKS = {
                         "documented rule. Trusts go-amino, gogoproto generated marshalers only in so far as both directions are exercised; "
                         "trusts rapid and encoding/json (used to parse outputs). Non-deterministic protobuf bytes of nodes.MsgStake with >=2 reward "
                         "delegators (unordered map marshalling) are compared semantically, not byte-wise."),
-    "C39": c("codec", "TestC39", dict(checks=2500, timeout=400), dict(checks=20000, shards=14, timeout=1500),
+    "C39": c("codec", "TestC39", dict(checks=5000, timeout=400), dict(checks=20000, shards=14, timeout=1500),
              technique="property-based testing (rapid): positive and negative signature verification, single-byte mutations, multisig assembly orderings, key encoding round trips",
              design_ref="DESIGN.md §7 C39",
              level_text="Generated ed25519/secp256k1 keys (from drawn seeds), messages of 0-256 bytes and 2-6 member (possibly nested) multisig keys: "
@@ -26,7 +26,7 @@ CHECKS = {
              level_note="Negative cases assume the underlying ed25519 / secp256k1 (btcec) primitives are unforgeable: a mutated signature verifying "
                         "would be reported as a violation. Address derivations are restated independently (sha256-20 for ed25519 and multisig, "
                         "ripemd160(sha256) for secp256k1). Trusts rapid."),
-    "C40": c("codec", "TestC40", dict(checks=36, timeout=600), dict(checks=400, shards=14, timeout=1500),
+    "C40": c("codec", "TestC40", dict(checks=60, timeout=600), dict(checks=250, shards=14, timeout=1500),
              technique="stateful property-based testing (rapid state machine) of the keybase against a map model, plus armor round-trip / wrong-passphrase / corruption checks",
              design_ref="DESIGN.md §7 C40",
              level_text="Generated keys, passphrases (empty, ASCII, unicode, long) and hints: armored keys decrypt to the identical key with the right "
